@@ -8536,7 +8536,9 @@ let execute u cfg c =
         ebind (edit_kill u cfg m0) (fun _ ->
           ebind
             (match text with
-             | Some t -> edit_insert_text u cfg t
+             | Some t ->
+               ebind (edit_insert_text u cfg t) (fun _ ->
+                 ebind changes_end (fun _ -> eret ()))
              | None -> eret ()) (fun _ -> eret Proceed))
       | CSelfInsert (n0, ch) ->
         ebind (edit_insert u cfg ch n0) (fun _ -> eret Proceed)
